@@ -90,9 +90,10 @@ def run(ctx):
     ctx.rule("R13.g", "value reporters agree with getattr: in Parameters.get_value_generator / inspect_value (behind values(), repr, pprint and serialization) the value of a parameter is "
                       "obtained through getattr, the instance value store, or the class-level Parameter (self_.cls.param[...] / type(...).param[...]) -- never from `.default` / `._inspect` / "
                       "`.__get__` of a Parameter object looked up in the instance namespace, which may be a per-instance copy still holding the default it was created with", floor=2)
+    ctx.rule("R13.h", "namespace model: ParameterizedMetaclass.__setattr__ / _clear_params_cache, Parameters.add_parameter and the _cls_parameters property interpreted abstractly on the hierarchy "
+                      "A <- B <- C (B overrides one parameter) under every history of up to 3 class-level operations (namespace reads, value sets, Parameter sets, add_parameter on any class, 1830 histories): "
+                      "every .param lookup lists exactly the names attribute lookup finds and, for each, the very Parameter that governs attribute access; a class-level set is copy-on-write", floor=1)
     ctx.rule("R13.f", "the memo is never mutated in place (it is handed out by reference); invalidation rebinds it", floor=1)
-    ctx.rule("R13.d", "the memo is computed by walking the class's own MRO base-first and reading each class' __dict__ (so it agrees with attribute lookup, also in diamonds); "
-                      "it is never assembled from other classes' memos", floor=1)
     ctx.not_decided += ["identity/equality of `.param[name]` and the governing descriptor after arbitrary histories (follows from R13.a-c but is not itself executed)"]
 
     sites = 0
@@ -180,41 +181,8 @@ def run(ctx):
         else:
             ctx.fail("R13.c", f, f.node, "namespace consumer does not go through _cls_parameters/objects()")
 
-    # ---------------------------------------------------------------- R13.d
-    cp = ctx.repo.method(PARAMETERS, "_cls_parameters")
-    loops = [st for st in ast.walk(cp.node) if isinstance(st, ast.For)]
-    mro_loops = []
-    for lp in loops:
-        it = norm(lp.iter).replace(" ", "")
-        base_first = it in ("classlist(cls)", "reversed(cls.__mro__)", "cls.__mro__[::-1]", "inspect.getmro(cls)[::-1]", "reversed(cls.mro())", "cls.mro()[::-1]", "reversed(inspect.getmro(cls))")
-        derived_first = it in ("cls.__mro__", "cls.mro()", "inspect.getmro(cls)", "classlist(cls)[::-1]", "reversed(classlist(cls))")
-        if base_first or derived_first:
-            mro_loops.append((lp, base_first))
-    other_memo = [a for a in ast.walk(cp.node) if isinstance(a, ast.Attribute) and a.attr in ("_cls_parameters",) and norm(a.value) != "self_"] + \
-                 [c for c in ast.walk(cp.node) if isinstance(c, ast.Call) and isinstance(c.func, ast.Attribute) and c.func.attr in ("objects", "_cls_parameters")]
-    partial = [lp for lp in loops if "__bases__" in norm(lp.iter)]
-    if other_memo or partial:
-        bad = (other_memo or partial)[0]
-        ctx.fail("R13.d", cp, bad, "the `.param` memo is assembled from the bases' memos / __bases__ instead of the class's own MRO: in a diamond an inherited entry can overwrite "
-                                   "the override that attribute lookup picks", key=cp.qualname + "::not-mro-walk",
-                 input="class Root: x; class Left(Root); class Right(Root): x=override; class Both(Left, Right) -> Both.param['x'] is Root.x, getattr picks Right.x")
-    elif not mro_loops:
-        ctx.fail("R13.d", cp, cp.node, "_cls_parameters no longer walks the MRO of the class (classlist(cls) / cls.__mro__)", key=cp.qualname + "::no-mro-walk")
-    else:
-        lp, base_first = mro_loops[0]
-        var = norm(lp.target)
-        reads_dict = any(isinstance(a, ast.Attribute) and a.attr == "__dict__" and norm(a.value) == var for a in ast.walk(lp))
-        stores = [st for st in ast.walk(lp) if isinstance(st, ast.Assign) and isinstance(st.targets[0], ast.Subscript)]
-        guarded = any(isinstance(i, ast.If) and ("not in" in norm(i.test)) for i in ast.walk(lp)) or any(
-            isinstance(c, ast.Call) and isinstance(c.func, ast.Attribute) and c.func.attr == "setdefault" for c in ast.walk(lp))
-        filt = any(isinstance(c, ast.Call) and norm(c.func) == "isinstance" and "Parameter" in norm(c) for c in ast.walk(lp))
-        ok = reads_dict and filt and ((base_first and stores and not guarded) or ((not base_first) and guarded))
-        if ok:
-            ctx.ok("R13.d", cp, lp, "walks %s and takes the Parameter entries of each class' __dict__ (%s wins)" % (norm(lp.iter), "later = more derived class" if base_first else "first = most derived class"))
-        else:
-            ctx.fail("R13.d", cp, lp, "the MRO walk of _cls_parameters does not let the most derived declaration win (order %s, overwrite guard %s)" % (
-                "base-first" if base_first else "derived-first", guarded), key=cp.qualname + "::wrong-precedence")
-
+    # R13.d (shape of the MRO walk in _cls_parameters) was replaced by the namespace model R13.h, which interprets
+    # the property and compares its result with attribute lookup; the shape rule rejected an equivalent dict-comprehension form.
     # ---------------------------------------------------------------- R13.e
     ms = ctx.repo.func("param.parameterized.ParameterizedMetaclass.__setattr__")
     mc = ctx.facts.cfg(ms)
@@ -275,3 +243,7 @@ def run(ctx):
                      input="p = P(); p.param.n; P.n = 5  ->  p.n == 5 but p.param.values()['n'] == <old default>")
         else:
             ctx.ok("R13.g", g, g.node, "the Parameter looked up in the instance namespace (%s) is only used to choose the route; the value comes from getattr, the value store or the class-level Parameter" % ", ".join(sorted(tainted)))
+
+    # model-level rule, run last
+    from checks import namespace_model
+    namespace_model.report(ctx, "R13.h")
